@@ -4,6 +4,8 @@ CONSTANTS
   Vals <- WV
   MaxBatch = 5
   M1s <- M1All
+  Variants = TRUE
+  Prefix <- NoPrefix
 VIEW view
 INVARIANTS LogCorrect LogOrderFree MinimalLog
 CHECK_DEADLOCK FALSE
